@@ -14,7 +14,9 @@ def ts(sec):
 
 
 def dur(sec):
-    """Go duration string of a whole number of seconds (what metav1.Duration unmarshals)"""
+    """Go duration string (what metav1.Duration unmarshals): whole seconds, or milliseconds for a fractional value"""
+    if isinstance(sec, float) and sec != int(sec):
+        return "%dms" % int(round(sec * 1000))
     return "%ds" % int(sec)
 
 
